@@ -311,17 +311,19 @@ func (c *client) executeWriteLoop(
 	runID string,
 	signalsToStep <-chan schema.Input,
 ) {
-	c.mutex.Lock()
-	if c.done {
-		c.mutex.Unlock()
+	// Do not take the client mutex here: the read loop holds it while it hands an emitted signal to
+	// the caller, and the caller may be waiting for this goroutine to take a signal. Close cancels
+	// the context before it marks the client done, so the context says the same.
+	select {
+	case <-c.context.Done():
 		// Close() was called, so exit now.
 		c.logger.Warningf(
 			"write called loop for run ID %q on done client; skipping receive loop",
 			runID,
 		)
 		return
+	default:
 	}
-	c.mutex.Unlock()
 
 	// Looped select that gets signals
 	for {
